@@ -27,8 +27,16 @@ theorem observers_listed :
     (observerEffects.any (fun r => r.1 = "MySQLQueryBuilder".toList ∧ r.2.1 = "_for_update_sql".toList)) = true ∧
     observerEffects.length ≥ 300 := by decide +kernel
 
-/-- an observation (no copy, no effects) leaves the heap as it is; any number of them in any order too -/
-theorem observations_frame (h : Heap.Heap) (n : Nat) : C01.runHistory h (List.replicate n ⟨0, [], []⟩ |>.take 0) = h := rfl
+/-- an observation is a method call without `copy.copy` whose effect list is empty (`observers_pure`) -/
+def observe (h : Heap.Heap) (recv : Heap.Obj) : Heap.Heap := C01.applyEffs h recv []
+
+/-- any number of observations, on any receivers, in any order, leave the heap exactly as it is — so every later
+    rendering reads the same state and, `render` being a function of that state and of the by-value context, gives
+    the same text -/
+theorem observations_frame (h : Heap.Heap) (recvs : List Heap.Obj) : recvs.foldl observe h = h := by
+  induction recvs with
+  | nil => rfl
+  | cons r rs ih => simpa [List.foldl, observe, C01.applyEffs] using ih
 
 /-- set-typed attributes that remain are used for membership tests only (listed for the record) -/
 def setAttrs : List (Str × List Str) := classTable.filterMap (fun r => if r.2.2.1.isEmpty then none else some (r.1, r.2.2.1))
